@@ -151,6 +151,7 @@ def check_total(acc, spec, mask, scheme='s'):
     Q, Sg, delta, q0, F = spaces.dfa_parts(spec, scheme)
     keys = sorted(delta)
     part = {k: delta[k] for i, k in enumerate(keys) if not (mask >> i & 1)}
+    part = dict(spaces.dorder(list(part.items()), lambda k: (Q.index(k[0]), Sg.index(k[1]))))
     A = fa.from_dfa_parts(Q, Sg, part, q0, F)        # missing transitions: no run, i.e. reject
     acc.states += 1
     if mask:
@@ -175,7 +176,21 @@ def check_total(acc, spec, mask, scheme='s'):
         if set(X.Sigma) != set(Sg):
             acc.viol(name, 'alphabet changed', inst, repro=rp)
             continue
-        common.expect_equiv(acc, name, inst, R, A, rp, sigma=Sg)
+        if not common.expect_equiv(acc, name, inst, R, A, rp, sigma=Sg):
+            continue
+        if name.endswith('in_place') and mask:
+            # chained: the completed object (its dict grew at the end) is the operand of every unary construction
+            Rt = fa.from_lib_dfa(X, total=True)
+            for name2, (ref, kind) in UNARY.items():
+                inst2 = dict(inst, op='dfa_make_total_in_place then ' + name2)
+                ok, Y = core.lib_call(acc, name2, inst2, getattr(m, name2), X, repro=rp)
+                acc.transitions += 1
+                if not ok:
+                    continue
+                acc.evals += 1
+                R2 = common.lib_dfa_to_ref(acc, name2, inst2, Y, rp) if kind == 'dfa' else common.lib_nfa_to_ref(acc, name2, inst2, Y, rp)
+                if R2 is not None:
+                    common.expect_equiv(acc, name2, inst2, R2, ref(Rt), rp, sigma=Sg)
 
 
 def one_total(acc, spec, mask, scheme='s'):
@@ -308,7 +323,7 @@ def plan(tier, seed):
     unary(2, 2, 1, 'q')
     unary(3, 1, 1, 'q')
     unary(2, 1, 1, 'x')
-    for sch in ('t', 'd', 'f'):
+    for sch in ('t', 'd', 'f', 'u', 'g', 'K'):
         unary(2, 2, 1, sch)
         unary(3, 1, 1, sch)
     unary(4, 2, 64, 's', stride=16 if tier == 'quick' else 1)
@@ -327,7 +342,13 @@ def plan(tier, seed):
         unary(3, 2, 8, 'q')
         total(3, 1, 4)
         bounds = 'pairs DFA(n<=2,k<=2)^2, DFA(n<=3,1)^2 all; DFA(3,2)xDFA(2,2) both orders stride 1/4; unary DFA(n<=3,k<=2), DFA(4,1); partial DFAs n<=2, (3,1); helpers on all 128 finite languages (pairs: 16 384)'
-    tasks = tasks + common.ordered_copies(tasks, lambda name, p: name.endswith('t_unary') and (p['n'], p['k']) in ((3, 1), (2, 2), (4, 2)) and p['scheme'] == 's' and p['shard'] % 2 == 0)
+    base = list(tasks)
+    pres = lambda name, p: (name.endswith('t_unary') and ((p['n'], p['k']) in ((2, 2), (3, 1), (1, 2)) and p['scheme'] in ('s', 'f') or (p['n'], p['k']) == (3, 2) and p['shard'] % 2 == 0)) or (name.endswith('t_pairs') and (p['n1'], p['n2'], p['k']) in ((1, 2, 2), (2, 1, 2), (2, 2, 1))) or name.endswith('t_total')
+    for kn in ({'dorder': 'aq'}, {'dorder': 'rev'}):
+        tasks = tasks + common.knob_copies(base, pres, kn)
+    tasks = tasks + common.ordered_copies(base, lambda name, p: name.endswith('t_unary') and (p['n'], p['k']) in ((2, 2), (2, 1)) and p['scheme'] == 's', orders=common.OBJ_ORDERS)
+    tasks = tasks + common.ordered_copies(base, lambda name, p: name.endswith('t_unary') and (p['n'], p['k']) in ((3, 1), (2, 2), (4, 2)) and p['scheme'] == 's' and p['shard'] % 2 == 0)
     return {'tasks': tasks, 'bounds': {'spaces': bounds}, 'exhaustive': True,
             'rule': 'every pair / every DFA in the bounds x each construction, exact equivalence with an oracle-built reference construction; helpers on every finite language over {a,b}^<=2; non-trivial = operands with different languages / unreachable or mixed accepting states / at least one removed transition',
-            'assumptions': ['partial DFAs are built with check_validity=False and read as: missing transition = no run']}
+            'assumptions': ['partial DFAs are built with check_validity=False and read as: missing transition = no run',
+                            'wave 5: small spaces also with the transition dict filled letter-major / reversed (keys of one state not adjacent), names with non-decimal digits / generated-looking / keyword-like, per-object set-order policies']}
